@@ -134,11 +134,12 @@ func (e *tableEngine) step(toks []string) string {
 
 // engine nodelist: the real nitro.NodeList over skiplist nodes carrying nitro items.
 type nodelistEngine struct {
-	db    *nitro.Nitro
-	sl    *skiplist.Skiplist
-	l     *nitro.NodeList
-	ids   map[*skiplist.Node]int
-	nodes map[int]*skiplist.Node
+	db     *nitro.Nitro
+	sl     *skiplist.Skiplist
+	l      *nitro.NodeList
+	ids    map[*skiplist.Node]int
+	nodes  map[int]*skiplist.Node
+	inList map[int]bool
 }
 
 func init() { engines["nodelist"] = func() engine { return &nodelistEngine{} } }
@@ -151,6 +152,7 @@ func (e *nodelistEngine) reset() {
 	e.l = nitro.NewNodeList(nil)
 	e.ids = map[*skiplist.Node]int{}
 	e.nodes = map[int]*skiplist.Node{}
+	e.inList = map[int]bool{}
 }
 
 func (e *nodelistEngine) close() {
@@ -178,13 +180,23 @@ func (e *nodelistEngine) step(toks []string) string {
 		if !ok || !ok2 {
 			return "bad-op"
 		}
-		if _, dup := e.nodes[id]; dup {
-			return "bad-op"
+		// a node that has been removed may be added again (the SAME node object, with whatever link it still
+		// carries); its key is the one given the first time
+		n, known := e.nodes[id]
+		if known {
+			if e.inList[id] {
+				return "bad-op"
+			}
+			if string((*nitro.Item)(n.Item()).Bytes()) != string(k) {
+				return "bad-op"
+			}
+		} else {
+			n = e.sl.NewNode(0)
+			n.SetItem(unsafe.Pointer(e.db.VerifNewItem(k)))
+			e.nodes[id] = n
+			e.ids[n] = id
 		}
-		n := e.sl.NewNode(0)
-		n.SetItem(unsafe.Pointer(e.db.VerifNewItem(k)))
-		e.nodes[id] = n
-		e.ids[n] = id
+		e.inList[id] = true
 		e.l.Add(n)
 		return "ok"
 	case toks[0] == "remove" && len(toks) == 2:
@@ -192,7 +204,11 @@ func (e *nodelistEngine) step(toks []string) string {
 		if !ok {
 			return "bad-op"
 		}
-		return e.nname(e.l.Remove(k))
+		rn := e.l.Remove(k)
+		if rn != nil {
+			e.inList[e.ids[rn]] = false
+		}
+		return e.nname(rn)
 	case toks[0] == "keys" && len(toks) == 1:
 		var ks []string
 		for _, k := range e.l.Keys() {
